@@ -99,6 +99,19 @@ def simcore_oracle(case, obs):
             if key not in got:
                 out.append(("n%d incarnation %d (started in event %d): the worker its software factory started with %s never ran" % (
                     d["host"], d["inc"], d["start_ev"], nm), None))
+    # Builder::enable_tokio_io: every incarnation runs on a runtime configured like the first one
+    first = {}
+    for x in obs.get("io_probes", []):
+        host, inc_, evi, r = x
+        if r == "nobind":
+            continue
+        if host not in first:
+            first[host] = (inc_, r)
+            if case["cfg"].get("tokio_io") and r != "ok":
+                out.append(("n%d incarnation %d: the tokio IO driver is missing although enable_tokio_io() was set" % (host, inc_), None))
+        elif r != first[host][1]:
+            out.append(("n%d incarnation %d (started in event %d): tokio IO driver %s, but %s in incarnation %d: the software was not restarted "
+                        "on a runtime configured like the first one" % (host, inc_, evi, r, first[host][1], first[host][0]), None))
     # probes: a crashed host is not running, has no live guard; others as expected
     dead = {}
     nreg = 0
@@ -556,6 +569,27 @@ def gen_factory_points():
     return out
 
 
+def gen_io_points():
+    """A handful of cases with Builder::enable_tokio_io(): each incarnation registers a real OS socket with
+    its runtime's IO driver; bounce, crash + bounce, repeated cycles, and the control without enable_tokio_io."""
+    out = []
+    p = {"main": [["obs"], ["sleep", 2 * MS], ["obs"]], "end": "never", "ticker": True, "io_probe": True, "tasks": []}
+    for io in (True, False):
+        for what in ("bounce", "crash-bounce", "cycles"):
+            script = [["host", [p]], ["host", [p]], ["step"], ["step"]]
+            if what == "bounce":
+                script += [["bounce", {"h": 0}], ["step"], ["step"]]
+            elif what == "crash-bounce":
+                script += [["crash", {"h": 0}], ["step"], ["bounce", {"ip": 0}], ["step"], ["step"]]
+            else:
+                for _ in range(2):
+                    script += [["bounce", {"re": "^n[01]$"}], ["step"], ["crash", {"h": 1}], ["bounce", {"h": 1}], ["step"]]
+            script += [["probe"]]
+            cfg = {"tick_ns": 1 * MS, "duration_ns": 1000 * MS, "epoch_ns": 19, "random_order": False, "seed": 1, "tokio_io": io}
+            out.append({"cfg": cfg, "script": script, "fam": "simcore", "flavour": "core-tokio-io"})
+    return out
+
+
 def gen_core_points():
     """One host with a ticker and two sleeping tasks: crash after every i, bounce after every j."""
     out = []
@@ -619,7 +653,7 @@ class Spec(PropSpec):
         core = gen_core_points() + [gen_core_case(rng) for _ in range(n)]
         if quick:
             core = rng.sample(gen_core_points(), 60) + core[len(gen_core_points()):]
-        core = gen_factory_points() + core
+        core = gen_io_points() + gen_factory_points() + core
         net = []
         combos = [(1, 1, {"h": 0}), (2, 1, {"ip": 0}), (1, 3, {"re": "^n0$"}), (1, 1, {"h": 1}), (1, 2, {"re": "^n[01]$"})]
         for (tick, lat, who) in combos:
